@@ -315,6 +315,7 @@ def _track(plan: Dict[str, Any], spec: Dict[str, Any], original: Any, inputs: An
     snap = tw.state_snapshot(original)
     kinds: List[str] = []
     deferred: List[Violation] = []
+    refdone: List[bool] = []
     alt: Dict[str, Any] = {"ok": None, "inputs": None}
     for i, op in enumerate(plan["ops"]):
         where = f"after op#{i} {op['op']} program {sig}"
@@ -378,8 +379,20 @@ def _track(plan: Dict[str, Any], spec: Dict[str, Any], original: Any, inputs: An
                 raise Violation("observational", "gradients_changed", f"{d} {where}")
             if tol is None:
                 # float-rounding-level difference: reported at the end of the run unless
-                # something else fails first
-                deferred.append(Violation("observational", "last_bits", f"{d} {where}"))
+                # something else fails first.  It is attributed to the recorded mechanism (D13:
+                # an identity autograd node with clone() forward / clone() backward behind every
+                # float node of the captured graph) only if a harness-built instrumentation of
+                # exactly that kind reproduces the tracked run bit for bit; any other source of
+                # last-bits differences is a violation of its own class.
+                cls = "last_bits"
+                if not refdone:
+                    refdone.append(True)
+                    rd = _ref_identity_diff(original, got, cur_inputs, op["gseed"], bwd, mask, ng)
+                    probe("last_bits_attribution_runs")
+                    if rd:
+                        cls = "last_bits_unattributed"
+                        d = f"{d}; tracked vs clone/clone identity instrumentation: {rd}"
+                deferred.append(Violation("observational", cls, f"{d} {where}"))
         d = tw.state_equal(original, snap)
         if d:
             raise Violation("observational", "original_state_changed", f"{d} {where}")
@@ -630,6 +643,46 @@ def _analyse(plan: Dict[str, Any], spec: Dict[str, Any], original: Any, inputs: 
         res["opseq"].append("analyse")
         res["nontrivial"] = True
         log.add("analyse", core.tensor_digest(before["outs"]))
+
+
+def _ref_identity_diff(original: Any, got: Any, cur_inputs: Any, gseed: int, bwd: bool, mask: Any, ng: bool) -> Optional[str]:
+    """Reference instrumentation for the attribution of finding D13: the same captured graph, run
+    by a plain fx.Interpreter that puts an identity autograd node (forward x.clone(), backward
+    g.clone()) behind every node producing a float tensor.  Returns the difference between the
+    tracked run `got` and this reference (None when bit-identical, or when the reference cannot
+    be built - then nothing is attributed away from the recorded class)."""
+    import torch
+    from torch import fx
+    import unit_scaling.transforms as T
+
+    from engines import tworld as tw
+
+    class _RefIdentity(torch.autograd.Function):
+        @staticmethod
+        def forward(ctx: Any, t: Any) -> Any:  # type: ignore[override]
+            return t.clone()
+
+        @staticmethod
+        def backward(ctx: Any, g: Any) -> Any:  # type: ignore[override]
+            return g.clone()
+
+    class _RefInterp(fx.Interpreter):
+        def run_node(self, n: Any) -> Any:
+            out = super().run_node(n)
+            if isinstance(out, torch.Tensor) and out.is_floating_point():
+                out = _RefIdentity.apply(out)
+            return out
+
+        def __call__(self, *a: Any, **k: Any) -> Any:
+            return super().run(*a, **k)
+
+    try:
+        ref = T.track_scales(original)
+        ref.backends[-1] = lambda gm, ex: _RefInterp(gm)
+        want = tw.run(ref, ref, tw.clone_inputs(cur_inputs), gseed, backward=bwd, out_mask=mask, no_grad=ng)
+    except Exception:
+        return None
+    return tw.diff(got, want) or None
 
 
 def neutralise(plan: Dict[str, Any], finding: Dict[str, Any]) -> Optional[Dict[str, Any]]:
